@@ -1525,8 +1525,19 @@ pub fn handle(w: &[&str]) -> String {
                 run.output()
             })
         }
-        [_, role, cfg, ops @ ..] => {
+        [name, role, cfg, ops @ ..] => {
             let Some(cfg) = parse_cfg(cfg) else { return "bad-op".into() };
+            // engine `out` (C14) only: the reserved identifiers h3 draws (`fastrand`) are a function of
+            // the line (FNV-1a over its tokens), so that a line always replays to the same bytes
+            if *name == "out" {
+                let mut h: u64 = 0xcbf29ce484222325;
+                for t in w {
+                    for b in t.bytes().chain(std::iter::once(b' ')) {
+                        h = (h ^ b as u64).wrapping_mul(0x100000001b3);
+                    }
+                }
+                fastrand::seed(h);
+            }
             guarded(|| {
                 let Some(mut run) = start(role, &cfg) else { return "bad-op".into() };
                 for op in ops {
